@@ -108,7 +108,8 @@ def main(run):
     proof_ok = run.prove(PROP_FILE, CORR)
     shoot = run.build_shoot()
     run.replay_findings({k: (lambda f: mh.witness_outcome(run, shoot, f))
-                         for k in ("K_map_ctor_func_nil_receiver", "K_map_ctor_arg_unguarded", "K_map_promoted_accessor_nil")})
+                         for k in ("K_map_ctor_func_nil_receiver", "K_map_ctor_arg_unguarded", "K_map_promoted_accessor_nil",
+                                   "K_map_mapper_ptr_embedded")})
     npairs = 300 if run.thorough() else 40
     budget = 64 if run.thorough() else 24
     fixed = mapgen.corpus()
@@ -157,6 +158,9 @@ def main(run):
         run.proof_failure_violation()
     ok_pairs = [p for p in pairs if p.status == "ok"]
     ncases = sum(len(p.cases) for p in ok_pairs)
+    # pairs of the class of K_map_mapper_ptr_embedded: compared with the literal model only, never certified
+    hop_cases = sum(len(p.cases) for p in ok_pairs
+                    if any(mapgen.mapper_hop(p.spec, j["src"]) != "None" for j in p.spec["jobs"]))
     distinct = set()
     for p in ok_pairs:
         for c in p.cases:
@@ -191,7 +195,8 @@ def main(run):
         "roots_exhaustive_patterns": stats["exhaustive"], "roots_sampled_patterns": stats["sampled"],
         "nil_positions_per_root": dict(sorted(collections.Counter(positions).items())),
         "receiver_twins_compared": ntwins,
-        "cases_certified_by_theorem": ncases - len(uncert),
+        "cases_certified_by_theorem": ncases - len(uncert) - hop_cases,
+        "cases_in_pointer_mapper_pairs_not_certified": hop_cases,
         "pairs_in_gen_guard": sum(1 for p in ok_pairs if gen.get(p.idx) == 1),
         "pairs_outside_gen_guard": sum(1 for p in ok_pairs if gen.get(p.idx, 0) == 0),
         "observations": dict(obs),
